@@ -24,15 +24,16 @@ type Abort struct {
 
 // repoFrame returns the innermost non-harness function of the module under test.
 func (in *Interp) repoFrame() string {
-	for i := len(in.callStack) - 1; i >= 0; i-- {
+	var out []string
+	for i := len(in.callStack) - 1; i >= 0 && len(out) < 2; i-- {
 		k := in.callStack[i]
 		if strings.Contains(k, "asyncmachine-go") && !strings.Contains(k, ".verif") && !strings.Contains(k, ".Verif") {
 			k = strings.ReplaceAll(k, "github.com/pancsta/asyncmachine-go/pkg/", "")
 			k = strings.ReplaceAll(k, "github.com/pancsta/asyncmachine-go/", "")
-			return k
+			out = append(out, k)
 		}
 	}
-	return ""
+	return strings.Join(out, "<")
 }
 
 type Assertion struct {
@@ -73,6 +74,8 @@ type Interp struct {
 	known      []KnownRegion
 	splits     []*Term
 	feasSolver *Solver
+	permuteMaps  bool
+	permuteSites []string
 	sinceVar   *Term
 	// fork mode (path-by-path execution): every symbolic branch consumes one decision
 	forkMode  bool
@@ -690,6 +693,9 @@ func (in *Interp) constVal(c *ssa.Const) Value {
 		return strConst(constantString(c))
 	}
 	if isFloat(t) {
+		if f, ok := constantFloatInt(c); ok {
+			return &FloatInt{mkConst(64, uint64(f))}
+		}
 		return &Opaque{"float const"}
 	}
 	if _, ok := t.Underlying().(*types.Interface); ok {
